@@ -165,17 +165,17 @@ DoSwapFee(s, who, mu, amt, to) ==
     LET reg == s.registry[mu]
         out == reg.to
         sIn == IF HasMinUnit(s, mu) THEN TokOf(s, mu).scale ELSE 0
-        sOut == ScaleOf(s, out)
+        \* fix c8ce377 (F27): the minted token is looked up by min unit, like the
+        \* burned one (before: GetToken, symbol first - a token whose SYMBOL is
+        \* `out` lent its scale to the swap)
+        sOut == ScaleOfMinUnit(s, out)
         rcpt == IF to = "" THEN who ELSE to
     IN
-    IF ~KnownDenom(s, out) THEN FailW(s, "no_token")
+    IF ~(HasMinUnit(s, out) \/ out = STAKE) THEN FailW(s, "no_token")
     ELSE IF ~RowFits(amt, reg.rn, reg.rd, sIn, sOut) THEN FailW(s, "unmodelled_row")
     ELSE
       LET r == LossLessRow(amt, reg.rn, reg.rd, sIn, sOut)
-          \* the minted coin is the min unit `out`; GetToken(out) resolved a token
-          \* whose SYMBOL is `out` and took that token's scale
-          why == IF sOut # ScaleOfMinUnit(s, out) THEN "swap_scale_by_symbol"
-                 ELSE LossLessWhy(amt, reg.rn, reg.rd, sIn, sOut)
+          why == LossLessWhy(amt, reg.rn, reg.rd, sIn, sOut)
       IN
       IF r.burn < 0 THEN PanicW(s, why)
       ELSE IF s.bal[who][mu] < r.burn THEN FailW(s, "insufficient")
